@@ -391,6 +391,33 @@ class C12(Check):
                     all_forms(bytes(m), "byte-mutation", ("bytes", "str") if bi % 3 == 0 else ("bytes",))
                     if i < len(b) - 4:
                         all_forms(with_checksum(m[:-4]), "byte-mutation-rechecksum", ("bytes",))
+            # several bytes changed together (a comparison that accumulates differences can cancel them): the same delta on two,
+            # three or all four checksum bytes, checksum bytes permuted / reversed / rotated / complemented / zeroed, the checksum of
+            # another blob, and pairs of body bytes changed by the same delta with the old checksum kept
+            n = len(b)
+            cs = list(range(n - 4, n))
+            for delta in (0x01, 0x80, 0xff, 0x5a):
+                for k in range(2, 5):
+                    for start in range(0, 5 - k):
+                        m = bytearray(b)
+                        for q in cs[start:start + k]:
+                            m[q] ^= delta
+                        all_forms(bytes(m), "checksum-multibyte-xor", ("bytes", "str") if bi % 3 == 0 else ("bytes",))
+                for (q1, q2) in ((n - 4, n - 2), (n - 4, n - 1), (n - 3, n - 1), (1, 2), (1, 33), (32, 64), (0, n - 1), (5, n - 4)):
+                    m = bytearray(b)
+                    m[q1] ^= delta
+                    m[q2] ^= delta
+                    all_forms(bytes(m), "pair-xor-same-delta", ("bytes",))
+                m = bytearray(b)
+                for q in cs:
+                    m[q] = (m[q] + delta) & 0xff
+                all_forms(bytes(m), "checksum-multibyte-add", ("bytes",))
+            c4 = b[-4:]
+            for alt in (c4[::-1], c4[1:] + c4[:1], c4[2:] + c4[:2], bytes(x ^ 0xff for x in c4), bytes(4), b"\xff" * 4,
+                        bytes([c4[1], c4[0], c4[2], c4[3]]), bytes([c4[0], c4[1], c4[3], c4[2]]), base[(bi + 1) % len(base)][-4:],
+                        with_checksum(b[:-4] + b"\x00")[-4:], with_checksum(b[1:-4])[-4:], with_checksum(b[:-5])[-4:]):
+                if alt != c4:
+                    all_forms(b[:-4] + alt, "checksum-replaced", ("bytes", "str") if bi % 3 == 0 else ("bytes",))
             for ln in range(0, 81):
                 t = (b + bytes((7 * k + 3) & 0xff for k in range(16)))[:ln]
                 all_forms(t, "truncate-extend", ("bytes", "str") if bi < 3 else ("bytes",))
